@@ -22,9 +22,14 @@ impl<'a> GenCtx<'a> {
     pub fn new(cat: &'a Catalogue, refs: &'a RefTable) -> GenCtx<'a> {
         let mut class_ranges = Vec::new();
         let mut at = 0;
-        for (_, n) in &cat.classes {
-            if *n > 0 {
-                class_ranges.push((at, at + n));
+        for (name, n) in &cat.classes {
+            if *n > 0 && *name != "long" {
+                // every class gets the same share of the picks, except the few-KB "medium"
+                // class, which is expensive to interleave: 1/32 of a share
+                let copies = if *name == "medium" { 1 } else { 32 };
+                for _ in 0..copies {
+                    class_ranges.push((at, at + n));
+                }
             }
             at += n;
         }
@@ -35,7 +40,8 @@ impl<'a> GenCtx<'a> {
         loop {
             let (a, b) = *rng.pick(&self.class_ranges);
             let i = a + rng.below((b - a) as u64) as usize;
-            if !self.exclude.contains(&self.cat.sources[i].id) {
+            // sources above 32 KB are for the reference passes and sweeps only
+            if !self.exclude.contains(&self.cat.sources[i].id) && self.cat.sources[i].text.len() <= 32 * 1024 {
                 return i;
             }
         }
@@ -214,6 +220,15 @@ pub fn generate(seed: u64, g: &GenCtx) -> Scenario {
         }
         clients.push(ops);
     }
+    let big = sources.iter().any(|s| s.text.len() > 3000);
+    let strategy = if big {
+        match strategy {
+            Strategy::Random { .. } | Strategy::Alternate | Strategy::Starved => Strategy::Random { quantum: 256 },
+            s => s,
+        }
+    } else {
+        strategy
+    };
     Scenario {
         seed,
         strategy,
